@@ -1802,7 +1802,12 @@ impl TypeLayout {
         let other = other.disregard_optional()?;
 
         match op {
-            Op::Is => return Some(TypeLayout::Native(NativeType::Bool)),
+            Op::Is => {
+                if lhs == other {
+                    return Some(TypeLayout::Native(NativeType::Bool));
+                }
+                return lhs.get_output_type(other, &Op::Eq, flags);
+            }
             Op::AddAssign => return lhs.get_output_type(other, &Op::Add, flags),
             Op::SubAssign => return lhs.get_output_type(other, &Op::Subtract, flags),
             Op::MulAssign => return lhs.get_output_type(other, &Op::Multiply, flags),
